@@ -106,7 +106,7 @@ class PointsToCuntzMST(Transform[npt.NDArray[np.float32], Tree]):
         mask[0, :] = False
         mask[0, 0] = True
         for _ in range(n - 1):  # for tree: e = n-1
-            cost = ma.array(dis + self.bf * acc, mask=mask)
+            cost = ma.array(dis + self.bf * acc[:, None], mask=mask)
             (i, j) = np.unravel_index(cost.argmin(), cost.shape)
 
             furcations[i] += 1
